@@ -76,7 +76,7 @@ def instrument(ctx, files):
 
 
 FIELDS = {"t", "seq", "e", "k", "n", "mode", "due", "close", "retry", "par", "hdr", "panic", "pid", "p", "ent", "m", "now", "res", "next",
-          "ndue", "pending", "broken", "hung", "g"}
+          "ndue", "pending", "broken", "hung", "g", "att", "rd", "scale"}
 
 
 def project(e):
@@ -143,12 +143,21 @@ def run_shards_resilient(ctx, binary, items, name="replay", rounds=6):
     return events
 
 
-def scen(mode, due, close, retry, par=1, maxtime=1, hdr=(), panic=(), pid=0, downtime=0):
+RESIDUE = ("metanew", "metanew_torn", "metanew_empty", "foreign", "rm_partial", "store_partial")
+
+
+def scen(mode, due, close, retry, par=1, maxtime=1, hdr=(), panic=(), pid=0, downtime=0,
+         left=(), restarts=1, retry2=(), rscale=1):
     # queue mode with shutdown: the process is started again on the same spool directory afterwards
+    # left: residue of dead incarnations / operators found in the spool directory at every start (harness/twcheck/
+    # residue_test.go); restarts: how often it is shut down and started again; retry2: messages whose second
+    # attempt fails as well; rscale: retry_time_scale
+    restart = mode == "queue" and close
     return {"mode": mode, "due": {p: d * SCALE for p, d in due.items()}, "close": close, "retry": list(retry),
             "par": par, "maxTime": maxtime * SCALE, "retryDelay": SCALE, "hdr": list(hdr),
             "panic": list(panic), "pid": pid * SCALE, "downtime": downtime * SCALE,
-            "restart": mode == "queue" and close}
+            "restart": restart, "left": list(left) if restart else [], "restarts": restarts if restart else 0,
+            "retry2": list(retry2) if restart else [], "scale": rscale}
 
 
 def directed(thorough):
@@ -185,6 +194,30 @@ def directed(thorough):
                 sc = scen(mode, {"p1": 0, "p2": 0}, close, ["p2"], par=par, maxtime=2, panic=["p1"])
                 sched = (["p1", "p2"] + run_all) * 10 + ((["closer"] + run_all) * 10 if close else [])
                 out.append({"cfg": sc, "pol": "list", "sched": sched, "src": "attempt-panic"})
+    # residue-restart: the spool directory the process comes back to also holds what dead incarnations and
+    # operators leave behind (ID.meta.new, torn / empty ones, backup copies, half-removed and half-stored
+    # messages).  (a) nothing was attempted before the shutdown (Commit after Close), every first attempt after
+    # the restart fails temporarily; (b) first attempt before, second attempt after the restart, failing again,
+    # the retry delay doubling, a second shutdown and restart before the third attempt is due.
+    lefts = [("metanew",), ("metanew_torn", "foreign"), ("metanew_empty", "rm_partial", "store_partial"), RESIDUE]
+    if not thorough:
+        lefts = [("metanew", "foreign"), ("metanew_torn", "rm_partial", "store_partial"), ("metanew_empty",)]
+    for li, left in enumerate(lefts):
+        for due in ({"p1": 0}, {"p1": 0, "p2": 0}):
+            for restarts in ((1, 2) if thorough or li == 0 else (1,)):
+                sc = scen("queue", due, True, list(due), par=2, maxtime=2, left=left, restarts=restarts,
+                          retry2=list(due)[:1], rscale=2, downtime=li % 2)
+                sched = ["p1"] + (["p2"] * 6 if "p2" in due else []) + (["closer"] + run_all) * 10 + ["p1"] * 6
+                out.append({"cfg": sc, "pol": "list", "sched": sched, "src": "residue-restart"})
+        for nclk in (1, 2):
+            for extra in ([], ["p2"] * 6):
+                if not thorough and (nclk + len(extra) // 6 + li) % 2:
+                    continue
+                due = {"p1": 0, "p2": 0} if extra else {"p1": 0}
+                sc = scen("queue", due, True, ["p1"], par=2, maxtime=3, left=left, restarts=2, retry2=["p1"],
+                          rscale=2, pid=li % 2)
+                sched = ["p1"] + ["clock"] * nclk + (["p1"] + run_all) * 10 + extra + (["closer"] + run_all) * 10
+                out.append({"cfg": sc, "pol": "list", "sched": sched, "src": "residue-restart"})
     for extra in ([], ["p2"] * 6):
         due = {"p1": 0, "p2": 0} if extra else {"p1": 0}
         sc = scen("queue", due, True, ["p1"], maxtime=3, hdr=["p1"])
@@ -211,11 +244,11 @@ def scenarios(thorough):
         z = mode == "queue"
         d1 = 0 if z else 1
         out += [
-            scen(mode, {"p1": 0}, True, ["p1"]),
-            scen(mode, {"p1": 0, "p2": d1}, True, ["p1"], maxtime=2),
-            scen(mode, {"p1": 0, "p2": 0}, True, []),
+            scen(mode, {"p1": 0}, True, ["p1"], left=("metanew", "foreign")),
+            scen(mode, {"p1": 0, "p2": d1}, True, ["p1"], maxtime=2, left=("metanew_torn", "store_partial")),
+            scen(mode, {"p1": 0, "p2": 0}, True, [], left=("metanew_empty", "rm_partial")),
             scen(mode, {"p1": d1, "p2": 0}, False, ["p1"], maxtime=2),
-            scen(mode, {"p1": 0, "p2": 0, "p3": d1}, True, ["p1", "p2"], par=2, maxtime=2),
+            scen(mode, {"p1": 0, "p2": 0, "p3": d1}, True, ["p1", "p2"], par=2, maxtime=2, left=RESIDUE),
             scen(mode, {"p1": 0, "p2": 0}, True, ["p2"], maxtime=2, panic=["p1"], pid=1 if z else 0, downtime=1 if z else 0),
         ]
         if thorough:
@@ -309,7 +342,8 @@ def run(ctx, replay):
             if all(v == 0 for v in b["cfg"]["due"].values()) and (not thorough or i % 5 == 0):
                 modes.append("queue")       # thorough: every picked schedule on the wheel, every 5th also on the queue
             for mode in modes:
-                c = dict(b["cfg"], mode=mode, hdr=[], restart=(mode == "queue" and b["cfg"]["close"]))
+                rs = mode == "queue" and b["cfg"]["close"]
+                c = dict(b["cfg"], mode=mode, hdr=[], restart=rs, left=list(RESIDUE[i % 3::3]) if rs else [])
                 behs.append({"cfg": c, "pol": "list", "sched": b["sched"], "src": "tlc"})
         # delay positions applied directly to the code's non-preemptive schedule, and random schedules
         behs += directed(thorough)
